@@ -1650,6 +1650,59 @@ def rw_fold_literal_concat(func, k):
     return True
 
 
+def rw_beta_lambda(func, k):
+    """f = lambda a, b: E ; ... f(x, y) ...     ->     ... E[a := x, b := y] ...        (f bound once, used only as the callee of
+    calls with matching positional pure arguments; E has no free local names, so it means the same at the call as in the lambda)"""
+    sites = []
+    stored = {n.id for n in ast.walk(func) if isinstance(n, ast.Name) and isinstance(n.ctx, (ast.Store, ast.Del))} | {a_.arg for a_ in ast.walk(func) if isinstance(a_, ast.arg)}
+    for owner, fld, blk in blocks_of(func):
+        for i, a in enumerate(blk):
+            if not (isinstance(a, ast.Assign) and len(a.targets) == 1 and isinstance(a.targets[0], ast.Name) and isinstance(a.value, ast.Lambda)):
+                continue
+            lam, t = a.value, a.targets[0].id
+            la = lam.args
+            if la.vararg or la.kwarg or la.kwonlyargs or la.defaults or la.posonlyargs or any(isinstance(n, (ast.Lambda, ast.ListComp, ast.SetComp, ast.DictComp, ast.GeneratorExp, ast.NamedExpr)) for n in ast.walk(lam.body)):
+                continue
+            params = [x.arg for x in la.args]
+            occ = [n for n in ast.walk(func) if isinstance(n, ast.Name) and n.id == t]
+            if sum(1 for n in occ if not isinstance(n.ctx, ast.Load)) != 1:
+                continue
+            if any(isinstance(n, ast.Name) and n.id == t for st_ in getattr(Ctx, 'window_outside', []) for n in ast.walk(st_)):
+                continue
+            # free names of the body: parameters, or names that are never bound in the function (module level)
+            if any(isinstance(n, ast.Name) and n.id not in params and n.id in (stored - {t}) for n in ast.walk(lam.body)):
+                continue
+            calls = [c for c in ast.walk(func) if isinstance(c, ast.Call) and isinstance(c.func, ast.Name) and c.func.id == t]
+            loads = [n for n in occ if isinstance(n.ctx, ast.Load)]
+            if not calls or len(calls) != len(loads):
+                continue
+            if any(c.keywords or len(c.args) != len(params) or any(isinstance(x, ast.Starred) or not _is_pure(x, allow_calls=False) for x in c.args) for c in calls):
+                continue
+            # every call comes after the binding in the same function body (not inside a nested function that may run earlier)
+            if any(isinstance(n, FuncDef) and n is not func and any(c is w for c in calls for w in ast.walk(n)) for n in ast.walk(func)):
+                continue
+            order = {}
+
+            def _pre(n):
+                order[id(n)] = len(order)
+                for ch in ast.iter_child_nodes(n):
+                    _pre(ch)
+            _pre(func)
+            if any(order[id(c)] <= order[id(a)] for c in calls):
+                continue
+            sites.append((blk, i, lam, params, calls))
+    if k >= len(sites):
+        return False
+    blk, i, lam, params, calls = sites[k]
+    for c in calls:
+        new = _subst_params(copy.deepcopy(lam.body), dict(zip(params, c.args)))
+        replace_node(func, c, fix(new, c))
+    del blk[i]
+    if not blk:
+        blk.append(fix(ast.Pass(), func))
+    return True
+
+
 def rw_operator_call(func, k):
     """operator.add(a, b)   ->   a + b        (the functions of the standard module `operator` ARE the operators; same operand order)"""
     sites = [n for n in ast.walk(func) if isinstance(n, ast.Call) and isinstance(n.func, ast.Attribute) and isinstance(n.func.value, ast.Name) and n.func.value.id == 'operator'
@@ -3438,7 +3491,7 @@ def rw_inline_helper(func, k):
     return True
 
 
-GUIDED = [rw_zip_collected, rw_zip_mapped, rw_operator_call, rw_fold_literal_concat, rw_zip_to_index, rw_inline_helper, rw_extract_temp, rw_flatten_comp_filter, rw_first_of_concat, rw_split_tuple_assign, rw_augcomp_to_loop, rw_len_zero, rw_bool_ifexp, rw_singleton_comp, rw_ndenumerate_value, rw_flat_to_ndenumerate, rw_slice_zero, rw_flip_compare, rw_keyword_to_positional, rw_fstring_to_percent, rw_np_all_any, rw_range_min_guard, rw_membership_container, rw_drop_default_arg, rw_unpack_first, rw_use_alias, rw_ravel_flatten, rw_last_appended, rw_pass_branch, rw_dictcomp_to_loop, rw_none_flag, rw_argcomp_to_loop, rw_hoist_return, rw_get_none, rw_else_after_exit_wrap, rw_else_after_exit_unwrap, rw_comp_to_loop, rw_loop_to_comp, rw_not_compare, rw_demorgan, rw_swap_branches, rw_merge_nested_if, rw_split_and_if, rw_guard_to_swapped_else, rw_swapped_else_to_guard, rw_drop_tail_return, rw_add_tail_return, rw_element_to_index_loop, rw_fuse_loops, rw_late_publication, rw_drop_tail_continue, rw_items_loop, rw_filter_loop, rw_loop_to_update, rw_is_false, rw_hoist_common_tail, rw_sink_common_tail, rw_try_tail_out, rw_try_tail_in, rw_genexp_loop, rw_guarded_subscript_get, rw_update_to_loop, rw_star_list, rw_filter_none, rw_extend_literal, rw_unpack_name, rw_tolist_index, rw_fuse_nested_comp, rw_split_elif_after_exit, rw_join_elif_after_exit, rw_np_synonym, rw_append_augadd, rw_list_call_to_comp, rw_last_is_appended, rw_move_append, rw_append_comp_to_loop, rw_split_append_concat, rw_enumerate_to_index, rw_subscripted_literal, rw_extend_to_loop, rw_comp_over_collected, rw_tail_pass_to_continue, rw_split_or_exit, rw_merge_exit_ifs, rw_unroll_const_loop, rw_drop_noop_pass, rw_ifexp_to_if, rw_if_to_ifexp, rw_bool_to_if, rw_kwargs_default, rw_trailing_return, rw_enumerate, rw_return_temp]
+GUIDED = [rw_zip_collected, rw_zip_mapped, rw_operator_call, rw_beta_lambda, rw_fold_literal_concat, rw_zip_to_index, rw_inline_helper, rw_extract_temp, rw_flatten_comp_filter, rw_first_of_concat, rw_split_tuple_assign, rw_augcomp_to_loop, rw_len_zero, rw_bool_ifexp, rw_singleton_comp, rw_ndenumerate_value, rw_flat_to_ndenumerate, rw_slice_zero, rw_flip_compare, rw_keyword_to_positional, rw_fstring_to_percent, rw_np_all_any, rw_range_min_guard, rw_membership_container, rw_drop_default_arg, rw_unpack_first, rw_use_alias, rw_ravel_flatten, rw_last_appended, rw_pass_branch, rw_dictcomp_to_loop, rw_none_flag, rw_argcomp_to_loop, rw_hoist_return, rw_get_none, rw_else_after_exit_wrap, rw_else_after_exit_unwrap, rw_comp_to_loop, rw_loop_to_comp, rw_not_compare, rw_demorgan, rw_swap_branches, rw_merge_nested_if, rw_split_and_if, rw_guard_to_swapped_else, rw_swapped_else_to_guard, rw_drop_tail_return, rw_add_tail_return, rw_element_to_index_loop, rw_fuse_loops, rw_late_publication, rw_drop_tail_continue, rw_items_loop, rw_filter_loop, rw_loop_to_update, rw_is_false, rw_hoist_common_tail, rw_sink_common_tail, rw_try_tail_out, rw_try_tail_in, rw_genexp_loop, rw_guarded_subscript_get, rw_update_to_loop, rw_star_list, rw_filter_none, rw_extend_literal, rw_unpack_name, rw_tolist_index, rw_fuse_nested_comp, rw_split_elif_after_exit, rw_join_elif_after_exit, rw_np_synonym, rw_append_augadd, rw_list_call_to_comp, rw_last_is_appended, rw_move_append, rw_append_comp_to_loop, rw_split_append_concat, rw_enumerate_to_index, rw_subscripted_literal, rw_extend_to_loop, rw_comp_over_collected, rw_tail_pass_to_continue, rw_split_or_exit, rw_merge_exit_ifs, rw_unroll_const_loop, rw_drop_noop_pass, rw_ifexp_to_if, rw_if_to_ifexp, rw_bool_to_if, rw_kwargs_default, rw_trailing_return, rw_enumerate, rw_return_temp]
 
 
 def _clone(node):
